@@ -162,12 +162,22 @@ class Ctx:
 
     def raises(self, monitor, exc, fn, *a, msg="", **k):
         """Check that fn(*a, **k) raises one of `exc`."""
+        before_args = [_arg_state(v) for v in a] + [(kk, _arg_state(v)) for kk, v in sorted(k.items())]
+        before_lib = library_state()
         try:
             with warnings.catch_warnings():
                 warnings.simplefilter("ignore")
                 r = fn(*a, **k)
         except exc:
-            return self.check(monitor, True)
+            ok = self.check(monitor, True)
+            # exception safety: a call that rejects its arguments must leave them, gv, the library's module-level variables and
+            # the ambient state exactly as they were ("the next valid call" must not see a difference)
+            after_args = [_arg_state(v) for v in a] + [(kk, _arg_state(v)) for kk, v in sorted(k.items())]
+            changed = [i for i, (x, y) in enumerate(zip(before_args, after_args)) if x != y]
+            self.check("exception.safety", not changed, f"{getattr(fn, '__name__', type(fn).__name__)}: the rejected call ({_names(exc)}) left argument(s) {changed} modified", args=a, kwargs=k)
+            d = library_state_diff(before_lib, library_state())
+            self.check("exception.safety", d is None, f"{getattr(fn, '__name__', type(fn).__name__)}: the rejected call ({_names(exc)}) left library state changed: {d}", args=a, kwargs=k)
+            return ok
         except Watchdog:
             raise
         except Exception as e:
@@ -304,6 +314,69 @@ def ambient_diff(a, b):
     return "; ".join(out)[:400] or None
 
 
+def _arg_state(v, depth=0):
+    """value-level fingerprint of an argument: arrays by dtype/shape/bytes, signal-like objects by their array attributes"""
+    if isinstance(v, np.ndarray):
+        return ("nd", digest(v))
+    if hasattr(v, "signal") and hasattr(v, "noise"):
+        return ("sig", type(v).__name__, digest(getattr(v, "signal", None)), digest(getattr(v, "noise", None)), getattr(v, "n_pol", None))
+    if hasattr(v, "data") and isinstance(getattr(v, "data", None), np.ndarray):
+        return ("bs", type(v).__name__, digest(v.data))
+    if isinstance(v, (list, tuple)) and depth < 2 and len(v) <= 64:
+        return (type(v).__name__,) + tuple(_arg_state(x, depth + 1) for x in v)
+    if isinstance(v, dict) and depth < 2:
+        return ("dict",) + tuple((k, _arg_state(x, depth + 1)) for k, x in sorted(v.items(), key=lambda kv: str(kv[0])))
+    if isinstance(v, (int, float, complex, str, bool, type(None), np.generic)):
+        return ("v", repr(v))
+    return ("obj", type(v).__name__)
+
+
+def library_state():
+    """everything a call must leave as it found it (besides its result): gv, the module-level variables of opticomlib's modules
+    (functions, classes and modules aside) and the process-global ambient state."""
+    import types
+    st = {}
+    try:
+        import opticomlib.typing as _ty
+        st["gv"] = {k: (digest(v) if isinstance(v, np.ndarray) else repr(v)) for k, v in vars(_ty.gv).items()}
+    except Exception:
+        st["gv"] = None
+    mods = {}
+    for m in opticomlib_modules():
+        d = {}
+        for k, v in vars(m).items():
+            if k.startswith("__") or isinstance(v, (types.FunctionType, types.ModuleType, type, types.BuiltinFunctionType)) or callable(v):
+                continue
+            if isinstance(v, (int, float, complex, str, bool, type(None), tuple, frozenset)):
+                d[k] = repr(v)[:200]
+            elif isinstance(v, np.ndarray):
+                d[k] = digest(v)
+            elif isinstance(v, (list, dict, set)):
+                d[k] = (type(v).__name__, len(v), repr(v)[:200])
+            else:
+                d[k] = ("id", id(v))
+        mods[m.__name__] = d
+    st["modules"] = mods
+    st["ambient"] = ambient_snapshot(full=False)
+    return st
+
+
+def library_state_diff(a, b):
+    out = []
+    if a["gv"] != b["gv"]:
+        ch = [k for k in set(a["gv"] or {}) | set(b["gv"] or {}) if (a["gv"] or {}).get(k) != (b["gv"] or {}).get(k)]
+        out.append(f"gv changed ({ch[:6]})")
+    for mn in a["modules"]:
+        da, db = a["modules"][mn], b["modules"].get(mn, {})
+        ch = [k for k in set(da) | set(db) if da.get(k) != db.get(k)]
+        if ch:
+            out.append(f"module-level variable(s) of {mn} changed: " + ", ".join(f"{k}: {da.get(k)} -> {db.get(k)}" for k in ch[:4]))
+    amb = ambient_diff(a["ambient"], b["ambient"])
+    if amb:
+        out.append(amb)
+    return "; ".join(out)[:500] or None
+
+
 def long_or(rng, i, n, longs=(32769, 50000, 70001, 131075), every=16, phase=7):
     """record-length helper: every `every`-th case of a workload replaces the drawn length by one beyond the usual internal
     block sizes (2**15, 2**16, 2**17; not multiples of them), so that chunked / narrow-index code paths are reached."""
@@ -317,6 +390,11 @@ def opticomlib_modules():
 
 
 _attached = []
+_twin = [0]          # > 0 while rv/forms.py executes a twin call: spies armed by a workload must not record those
+
+
+def in_twin():
+    return _twin[0] > 0
 
 
 def attach(module, name, make_wrapper):
@@ -363,6 +441,8 @@ def spy(module, name, recorder):
 
     def passthrough(*a, **k):
         r = orig(*a, **k)
+        if _twin[0] > 0:
+            return r
         try:
             recorder(a, k, r)
         except Exception:  # a spy must never change behaviour
